@@ -427,7 +427,7 @@ ROUND9 = {
     'C02': 'Segment\'s constructor interpreted (first newSlot with a block size >= 1); no fixed-size local array is indexed without a constant bound; the loader\'s tabled rejections and the '
            'child-chain surgery are shared (validators, listops).',
     'C03': 'the count rules of C12 and RESTORE of C19 are shared; gr_face_n_glyphs counts what the Gloc table holds.',
-    'C04': 'the DELETE arm of the code analyser marks the action as deleting, unconditionally.',
+    'C04': 'the DELETE arm of the code analyser marks the action as deleting, unconditionally; collectGarbage covers the cell in front of the context (defect F26, found by the thorough tier, repaired).',
     'C05': 'the caller\'s nChars reaches the decoding loop unchanged (shared with C12); slot members are addressed by role in the PUT_COPY execution.',
     'C06': 'who tells positionSlots which direction; Pass::adjustSlot and the attribute stride are shared; the trace cell freeSlot bumps has room in newSlot.',
     'C10': 'the preloading constructor reads the boxes whatever the number of sub-boxes (defect F25, repaired); the sub-box total is wider than 16 bits.',
@@ -435,7 +435,7 @@ ROUND9 = {
     'C13': 'malloc\'ed cache blocks hold garbage in the agreement run; DirectCmap\'s constructor is interpreted; ~CachedCmap frees every block its constructor made.',
     'C15': 'no API query positions the segment again; justify branches on design-unit quantities only.',
     'C16': 'a field holding a fresh allocation is not nulled unreleased; aliases through calls that return the address of their argument; OPTFLOW and CMAPBOUND shared.',
-    'C17': 'ShiftCollider::resolve by symbolic execution (the shift handed back is the cheapest axis\' free position); insert / push_back handed a reference to an own element.',
+    'C17': 'ShiftCollider::resolve by symbolic execution (the shift handed back is the cheapest axis\' free position); insert / push_back handed a reference to an own element; ShiftCollider::initSlot by symbolic execution (every axis range is the set of positions inside the limit rectangle).',
     'C18': 'SillMap::readSill interpreted on byte-level tables; per-feature values are per-iteration; a label is built from bytes of the name table only.',
     'C19': 'no fixed-size local array indexed by the level count; getSlotBidiClass returns what it caches.',
     'C20': 'gr_tag_to_str interpreted on exact-size buffers whatever its form.',
@@ -443,3 +443,20 @@ ROUND9 = {
 for _k, _v in ROUND9.items():
     if _k in CLAIMS:
         CLAIMS[_k]['text'] += '  Round 9: ' + _v
+
+# sharing of rules between properties whose texts overlap (DESIGN 13.12, seeded/own_matrix.json)
+SHARED = {
+    'C01': 'COPYGUARD of C14',
+    'C02': 'DETACH of C04, ZONESET of C17, NULSTOP/ADVANCEBOUND of C12, UNDO of C19',
+    'C03': 'the validator inventory of C01',
+    'C05': 'INDEX, LINKSYM, GROWTH of C03; LEADREJECT of C11',
+    'C06': 'DETACH, LISTOPS of C04; DRIVERS, SIG of C07; GIDCLAMP of C03; LOOPLIMIT of C02; the validator inventory of C01',
+    'C08': 'NOESCAPE of C16; LOADERSIB of C10',
+    'C10': 'TABLETS of C16',
+    'C11': 'TEXTFLOW, ONEDECODE of C12; CINFO of C05',
+    'C13': 'the validator inventory of C01',
+    'C15': 'UNHINTED of C09',
+}
+for _k, _v in SHARED.items():
+    if _k in CLAIMS:
+        CLAIMS[_k]['text'] += '  Rules shared from other properties (soft view, reported under this property\'s rule ids): ' + _v + '.'
